@@ -1178,4 +1178,52 @@ theorem getRandomItems_props (h : WFA t) (e : Nat) (hne : t.items ≠ []) (he : 
   · simp only [List.length_take, List.length_drop, List.length_append]; omega
 
 end WFA
+namespace T
+variable (t : T)
+
+@[simp] theorem size_setP (i : Nat) (l : List Item) : (t.setP i l).size = t.size := rfl
+@[simp] theorem size_setLoc (a b : Nat) : (t.setLoc a b).size = t.size := rfl
+@[simp] theorem size_delLoc (a : Nat) : (t.delLoc a).size = t.size := rfl
+@[simp] theorem size_pack : t.pack.size = t.size := rfl
+@[simp] theorem size_loadLastFromPrev : t.loadLastFromPrev.size = t.size := by
+  unfold loadLastFromPrev; split <;> rfl
+
+theorem size_addX (it : Item) : (t.addX it).1.size = t.size := by
+  unfold addX
+  split
+  · rfl
+  · split
+    · rfl
+    · simp only [size_setP]; split <;> simp
+
+theorem size_updateItem (it : Item) : (t.updateItem it).1.size = t.size := by
+  unfold updateItem
+  repeat' split
+  all_goals simp
+
+theorem size_update (id : Nat) (f : Nat → Option Nat) : (t.update id f).1.size = t.size := by
+  unfold update
+  repeat' split
+  all_goals simp
+
+theorem size_removeFromLast (k : Nat) : (t.removeFromLast k).size = t.size := by
+  unfold removeFromLast
+  simp only
+  split <;> simp
+
+theorem size_removeItem (id i : Nat) : (t.removeItem id i).size = t.size := by
+  unfold removeItem
+  split
+  · simp only; split <;> simp
+  · rfl
+
+theorem size_remove (id : Nat) : (t.remove id).1.size = t.size := by
+  unfold remove
+  split
+  · exact size_removeFromLast t _
+  · split
+    · rfl
+    · simp [size_removeItem]
+
+end T
 end ZChain.Partitions
